@@ -157,7 +157,7 @@ def body_cli(E, B, f1, f2, f3, base):
     fn = mkfn(base)
     with E() as env:
         ref = combo_runner(fn, grid(B), verbosity=0)
-        crop = cp.Crop(fn=fn, name="t", parent_dir=env.parent, batchsize=1)
+        crop = cp.Crop(fn=fn, name="xy-z", parent_dir=env.parent, batchsize=1)
         crop.sow_combos(grid(B), verbosity=0)
         for i in fin:
             cp.grow(i, crop=crop, verbosity=0)
@@ -170,7 +170,7 @@ def body_cli(E, B, f1, f2, f3, base):
 
         env._set(cp, "grow", recorder)
         argv, environ, path = sys.argv, dict(_os.environ), list(sys.path)
-        sys.argv = ["xyzpy-grow", "t", "--parent-dir", env.parent, "--verbosity", "0"]
+        sys.argv = ["xyzpy-grow", "xy-z", "--parent-dir", env.parent, "--verbosity", "0"]
         env._set(cli, "print", lambda *a, **k: None)
         try:
             cli.main()
@@ -183,7 +183,7 @@ def body_cli(E, B, f1, f2, f3, base):
             _os.environ.update(environ)
         if sorted(grown) != [i for i in range(1, B + 1) if i not in fin]:
             return False
-        c2 = cp.Crop(name="t", parent_dir=env.parent)
+        c2 = cp.Crop(name="xy-z", parent_dir=env.parent)
         return c2.is_ready_to_reap() and c2.reap() == ref
 
 
@@ -206,7 +206,7 @@ CONDS = (
                   ["1 <= tau <= 4 and opt == 0 and nw == 0"], "sched", [0, 1, 2], fixed=dict(B=4), timeout=1800,
                   tiers=("thorough",), bounds="as script with B=4 batches")
     + [make_cond(_G, "cli", body_cli, "B:int f1:bool f2:bool f3:bool base:int", ["1 <= B <= 3"], timeout=300,
-                 bounds="xyzpy-grow command line on crops of B<=3 batches with every proper finished subset: grows "
+                 bounds="xyzpy-grow command line (crop named 'xy-z') on crops of B<=3 batches with every proper finished subset: grows "
                         "exactly the missing batches, crop ready, exact results")]
 )
 
